@@ -13,7 +13,7 @@ import os
 import subprocess
 import tempfile
 
-from check_common import NVH, DRIVER
+from check_common import NVH, DRIVER, oracle_key
 
 
 def entries(line):
@@ -33,6 +33,24 @@ def frame_kind(text):
     return k
 
 
+def frame_kind_reason(text):
+    # "ERROR reason=X ..." -> "ERROR:X"
+    k = text.split(" ", 1)[0]
+    if k == "ERROR":
+        for tok in text.split(" "):
+            if tok.startswith("reason="):
+                return "ERROR:" + tok[7:]
+    return k
+
+
+def depends_hit(a, b, dep):
+    # does the disagreement between impl entries a and model entries b involve a frame kind the property depends on?
+    kinds = set(dep.get("frames", []))
+    da = sorted(x for x in a if x not in b)
+    db = sorted(x for x in b if x not in a)
+    return any(frame_kind_reason(split_entry(x)[2]) in kinds or frame_kind(split_entry(x)[2]) in kinds for x in da + db)
+
+
 def step_equal(a, b):
     """full comparison of one step: impl entries a, model entries b"""
     if sorted(a) == sorted(b):
@@ -50,7 +68,7 @@ def project(ents, proj, tag):
         if proj.get("requester_only") and conn != tag.get("conn"):
             continue
         kinds = proj.get("frames")
-        if kinds is not None and frame_kind(text) not in kinds:
+        if kinds is not None and frame_kind(text) not in kinds and frame_kind_reason(text) not in kinds:
             continue
         if proj.get("drop_payload_bytes") and " #" in text:
             text = text.split(" #")[0]
@@ -122,7 +140,7 @@ def run(R, sname, conf):
                 msg = parts[2]
                 t = msg.split(":")[0]
                 if t in tags:
-                    key = f"oracle:{t}:{msg.split(':',1)[1].strip()[:60].replace(' ', '_')}"
+                    key = oracle_key(msg)
                     R.violations.append((key, f"implementation violates the property oracle in suite {sname} seed={seed} case={c}: {msg}",
                                          {"suite": sname, "seed": seed, "case": int(c), "cmd": f"{NVH} srv --seed {seed} --cases {cases} --steps {steps} --only {c} --out /dev/stdout", "oracle": msg}))
                 continue
@@ -147,6 +165,8 @@ def run(R, sname, conf):
                     pa, pb = project(a, proj, tag), project(b, proj, tag)
                     if rel and not step_equal(pa, pb):
                         R.problems.append(("correspondence", f"suite {sname} seed={seed} case={case}: model and implementation disagree at `{l}`\n  impl : {impl[i-1]}\n  model: {model[i-1]}\n  history:\n    " + "\n    ".join(x for x in case_lines[-40:] if x.startswith(('op ', 'env ', 'cfg ')))))
+                    elif conf.get("depends") and depends_hit(a, b, conf["depends"]):
+                        R.problems.append(("correspondence", f"suite {sname} seed={seed} case={case}: model and implementation disagree at `{l}` on state this property's theorems depend on (membership / ownership / identity)\n  impl : {impl[i-1]}\n  model: {model[i-1]}\n  history:\n    " + "\n    ".join(x for x in case_lines[-40:] if x.startswith(('op ', 'env ', 'cfg ')))))
                     else:
                         cov["first_divergences_elsewhere"] += 1
         R.cov["evaluations"] += cov["steps"]
@@ -174,7 +194,7 @@ def run(R, sname, conf):
                     msg = parts[2]
                     t = msg.split(":")[0]
                     if t in tags:
-                        key = f"oracle:{t}:{msg.split(':',1)[1].strip()[:60].replace(' ', '_')}"
+                        key = oracle_key(msg)
                         R.violations.append((key, f"implementation violates the property oracle in suite {sname} seed={seed} case={c}: {msg}",
                                              {"suite": sname, "seed": seed, "case": int(c), "cmd": " ".join(cmd) + f" --only {c}", "oracle": msg}))
             os.unlink(path)
